@@ -71,3 +71,31 @@ package main
 //@ split returns
 //@ modifies *
 //@ ensures[C20] err == nil ==> e.depth == old(e.depth)+1
+
+// ---------------------------------------------------------------------------
+// The output stream is finished exactly once, whichever way the input arrives (C20): a
+// binary writer emits nothing before Finish, the event stream ends with its stream-end
+// event there.
+
+//@ func (*processor).processReader
+//@ trusted thin: called by contract (creates a Reader over the input and runs the copy loop)
+//@ modifies p.idx
+
+//@ func (*processor).processFile
+//@ trusted thin: called by contract (opens and closes the file around processReader)
+//@ modifies p.idx, p.loc
+
+//@ func (*processor).processStdin
+//@ requires p.out != nil && p.err != nil
+//@ counts Writer.Finish
+//@ modifies p.idx, p.loc
+//@ ensures[C20] vcCalls("Writer.Finish") == 1
+
+//@ func (*processor).processFiles
+//@ split returns
+//@ requires p.out != nil && p.err != nil
+//@ counts Writer.Finish
+//@ invariant loop0 vcCalls("Writer.Finish") == 0 && p.out == old(p.out) && p.err == old(p.err)
+//@ modifies p.idx, p.loc
+//@ ensures[C20] err == nil ==> vcCalls("Writer.Finish") == 1
+//@ ensures[C20] err != nil ==> vcCalls("Writer.Finish") == 0
